@@ -136,6 +136,38 @@ def sc_kmeans(B, dask, iters, size=(2, 1, 3)):
     return o
 
 
+def sc_setters(B):
+    """arrays handed to a machine through its setters stay the caller's: assigning them (also into a
+    machine with higher floors, also another machine's arrays) does not modify them"""
+    gmm = B.mod("gmm")
+    C, D = 2, 2
+    o = Outcome()
+    fr = Frame(B, o)
+    w = fr.own("w", B.arr("w", (C,), pos=True))
+    mu = fr.own("mu", B.arr("mu", (C, D)))
+    v = fr.own("v", B.arr("v", (C, D), pos=True))
+    thr = fr.own("thr", B.arr("thr", (D,), pos=True))
+    m = gmm.GMMMachine(C)
+    m.weights, m.means = w, mu
+    m.variance_thresholds = thr
+    m.variances = v
+    fr.unchanged("-after-setters")
+    # a second machine with floors of its own takes the first machine's arrays
+    src_v, src_mu = B.copy(m.variances), B.copy(m.means)
+    X = B.arr("x", (1, D))
+    ll = B.copy(m.log_likelihood(X))
+    m2 = gmm.GMMMachine(C)
+    m2.variance_thresholds = B.real("thr2", pos=True)
+    m2.means = m.means
+    m2.variances = m.variances
+    m2.log_likelihood(X)
+    o.same("source-machine-variances-unchanged", m.variances, src_v)
+    o.same("source-machine-means-unchanged", m.means, src_mu)
+    o.same("source-machine-scores-unchanged", m.log_likelihood(X), ll)
+    fr.unchanged("-after-second-machine")
+    return o
+
+
 def sc_stats_ops(B):
     gmm = B.mod("gmm")
     C, D = 2, 1
@@ -272,6 +304,7 @@ def job_kmeans(P, size=(2, 1, 3), combos=((False, 1), (False, 2), (True, 1), (Tr
 
 def job_misc(P):
     P.run("stats-ops", sc_stats_ops, {}, validate=1)
+    P.run("setters", sc_setters, {}, validate=3)
     P.run("linear-scoring", sc_linear, {}, validate=1)
     P.run("ivector", sc_ivector, {}, validate=0)
     P.run("ivector-fixed-sigma", sc_ivector, dict(update_sigma=False), validate=0)
